@@ -231,6 +231,9 @@ func genericCase[GE algebra.PrimeGroupElement[GE, S], S algebra.PrimeFieldElemen
 		r.expect("GV", []string{vh.ZHex(n), b01(neg), "0", "0", "1", vh.ZHex(q.rk), vh.ZHex(q.s), vh.ZHex(q.pkd), q.mid, ch},
 			obs, class, caseText, "schnorr-verify-"+env.name, schnorrWhat, q.name, pf)
 	}
+	if okR && idx < 2 {
+		genericWire(r, env, class, caseText, func(sg *schnorrlike.Signature[GE, S]) bool { return vf.Verify(sg, pk, msg) == nil }, sig)
+	}
 }
 
 func k256Gen() *genEnv[*k256.Point, *k256.Scalar] {
@@ -517,6 +520,9 @@ func bipCase(r *run, idx int) {
 	if o := verifyBytes(pb, ser, msg); o != "rej" || bip340Verify(pb, msg, ser) {
 		r.prop("bip340-key-bitflip-accepted", caseText, what, fmt.Sprintf("public key bytes %s (one bit of %s flipped): implementation %s", vh.Hex(pb), vh.Hex(pkb), o))
 	}
+	if bytes.Equal(ser, refSig) {
+		bipWire(r, class, caseText, what, verifyBytes, pkb, ser, msg, d0, k, s)
+	}
 }
 
 // ---- Mina ---------------------------------------------------------------------------------------------
@@ -687,10 +693,8 @@ func minaCase(r *run, randomised bool, idx int) {
 			obs, class, caseText, "mina-verify", what, q.name, pf)
 	}
 	// serialised form: 64 bytes, decode gives the even-y R; round trip verifies
-	if ser, err := mina.SerializeSignature(sig); err == nil {
-		if sg2, err := mina.DeserializeSignature(ser); err != nil || vf.Verify(sg2, sk.PublicKey(), minaMsg(text)) != nil {
-			r.prop("mina-serialised-rejected", caseText, what, "decode(serialise(sig)) does not verify")
-		}
+	if ser, err := mina.SerializeSignature(sig); err == nil && okR {
+		minaWire(r, class, caseText, what, vf, sk.PublicKey(), text, ser, x, k, s, chal(k, x, text, "m"))
 	}
 }
 
